@@ -1,4 +1,7 @@
 """C18 — tokens, errors and breakpoints carry the true source position."""
+import os
+import subprocess
+
 import checklib
 
 
@@ -17,7 +20,36 @@ def decode(p):
         return p
 
 
+GEN = os.path.join(checklib.LEAN, "Ecal", "Gen", "C18.lean")
+
+
+def extract(ctx):
+    """regenerate lean/Ecal/Gen/C18.lean (where the code copies a token's position into errors, messages,
+    stack traces, the except object and break point keys) from the tree under test (go/ast). Verdict per
+    site: 0 established, 1 refuted (breaks the obligation errors_carry_token_pos), 2 unknown shape (reported)."""
+    binp = checklib.go_build(ctx)
+    previous = open(GEN).read() if os.path.exists(GEN) else None
+    if previous is not None:
+        os.remove(GEN)
+    p = subprocess.run([binp, "C18", "-tool", "extract", GEN], stdout=subprocess.PIPE, stderr=subprocess.STDOUT,
+                       text=True, env=dict(checklib.GOENV, VERIF_REPO=checklib.REPO), cwd=ctx.work, timeout=120)
+    if p.returncode != 0 or not os.path.exists(GEN):
+        if previous is None:
+            raise checklib.CheckError("C18: no generated facts and the extractor failed: " + p.stdout[-500:])
+        open(GEN, "w").write(previous)
+        ctx.notes.append("C18 facts NOT regenerated (extractor failed: " + " ".join(p.stdout.split())[:200] + "); the last committed Gen/C18.lean was used")
+        return
+    lines = [l for l in p.stdout.splitlines() if l[:2] in ("0 ", "1 ", "2 ")]
+    ctx.coverage["fact_sites"] = len(lines)
+    ctx.coverage["fact_sites_established"] = len([l for l in lines if l.startswith("0 ")])
+    ctx.coverage["fact_sites_refuted"] = [l[2:] for l in lines if l.startswith("1 ")]
+    ctx.coverage["fact_sites_unknown_shape"] = [l[2:] for l in lines if l.startswith("2 ")]
+    if ctx.coverage["fact_sites_unknown_shape"]:
+        ctx.notes.append("C18 source fact: sites of unknown shape (no obligation broken): " + "; ".join(ctx.coverage["fact_sites_unknown_shape"])[:400])
+
+
 SPEC = dict(
+    extract=extract,
     lean_modules=["Ecal.Props.C18"],
     shards=8,
     rule=("lex cases: the known-finding/repair corpus, every sequence of <=3 (quick) / <=4 (thorough) atoms from "
@@ -42,9 +74,10 @@ SPEC = dict(
     exhaustive="all sequences of the 19 small atoms up to the stated length",
     trusted_base=[
         "lean/Ecal/Model/Lexer.lean is a hand-written port of parser/lexer.go; its agreement with the Go lexer is tested on every run (this correspondence), not proved",
-        "unicode.IsNumber is modelled exactly only for ASCII and Latin-1 (irrelevant for positions of the generated inputs)",
-        "the EOF clause (EOF line = line of the end of input; stale Pos/column = known finding eof-stale-position) is evaluated on every case, not proved",
-        "errors_carry_token_pos: that parser.Error / util.RuntimeError copy Lline/Lpos of the offending token unchanged is checked by the planted-error cases, not proved (parser and interpreter are other properties' models)",
+        "isSpace / isControl / isNumber / decodeRune of the model are hand copies of the Go tables (go1.23.5, Unicode 15.0.0); they are swept against unicode.IsSpace / IsControl / IsNumber / utf8.DecodeRune for U+0000-U+2FFF on every quick run and for every code point (incl. surrogates, out of range) on every thorough run (case kind U)",
+        "the EOF clause (EOF line = line of the end of input; stale Pos/column = known finding eof-stale-position) and the stale column VALUE after a # comment are evaluated on every case, not proved",
+        "comment tokens are exempt from 'Pos is the first character': their Pos is the first byte of the comment TEXT (what Val holds; the opener # or /* stands directly before it - proved); they are meta data and never reach an error or a break point",
+        "errors_carry_token_pos is a syntactic source fact (go/ast: operands of the constructions and of the Sprintf calls), regenerated on every run; that the error names the OFFENDING token is checked by the planted-error cases (45 NewRuntimeError / 11 newParserError sites, 17 plants)",
     ],
     assumptions=["sep cases: token lines are monotone along the token sequence, so the same-line-as-previous relation determines every "
                  "line comparison the parser makes (parser.go: run, ndReturn, ndIdentifier, hasMoreStatements) - by reading, not proved",
@@ -54,16 +87,54 @@ SPEC = dict(
 
 META = dict(
     technique="Lean 4 theorems over an executable port of the lexer + differential correspondence with parser.LexToList, parser.Parse and the interpreter",
-    level_text=("Proof (about the executable lexer model, all inputs): L.next satisfies the step hypotheses; skipWhiteSpace, the string lexer and the "
-                "block comment keep the line/lastnl bookkeeping true over any number of iterations; lexNumberBlock, lexTextBlock and the # comment "
-                "body never cross a newline; hence the invariant between tokens (lexer_pos_invariant) and token_positions_true_partial: every "
-                "emitted non-EOF token of every input carries the true line, and the true column unless the last newline before it ended a # "
-                "comment (classifier of the known finding; negative witness 'a # c\\nb' proved). Model tied to parser/lexer.go by an "
-                "exhaustive-for-short / random-for-long differential run; error positions and statement separation under comments are tested."),
+    level_text=("Proof (about the executable lexer model, all inputs): every emitted non-EOF token carries the true line of its Pos, and the true "
+                "column unless the last newline before it ended a # comment (token_positions_true_partial; classifier of the known finding, negative "
+                "witness proved); Pos IS the token's first character - a non-blank rune, the token text stands there; comment tokens: first byte of "
+                "the comment text with the opener directly before it (token_starts_at_first_character, token_text_at_pos); the lexer always "
+                "terminates with EOF or an error token, no fuel runs out (lexer_always_closes); errors, messages, stack traces, the except object "
+                "and break point keys copy Lline/Lpos of one token (errors_carry_token_pos: go/ast fact regenerated on every run, Lean obligation). "
+                "Model tied to parser/lexer.go by an exhaustive-for-short / random-for-long differential run and a code point sweep; error "
+                "positions (fields, message text, JSON, except object, stack trace), break points on the real debugger and statement "
+                "separation under comments are tested on every run."),
     level_note=("Trusted: Lean kernel + propext/Classical.choice/Quot.sound; the correspondence harness. Known finding hash-comment-column "
                 "(pinned by TestObjectInstantiation) is reported, any other wrong position is a violation."),
 )
 
 
+def _accept(go, alt):
+    """token-by-token acceptance: every token Go reports equals one of the values the model lists for
+    that token (the code as it is, or a tree with some of the known findings repaired)"""
+    g, a = go.split(" "), alt.split(" ")
+    return len(g) == len(a) and all(x in y.split("|") for x, y in zip(g, a))
+
+
 def run(ctx):
-    return checklib.standard(ctx, SPEC)
+    # checklib.standard compares whole result lines (Go == model or Go == spec). The two known findings
+    # of C18 are independent, so a tree that repairs ONE of them equals neither string on inputs that
+    # show both. The driver therefore lists per token what is acceptable (`alt=`); a Go line that is
+    # acceptable token by token is handed to the standard comparison as the case's `spec`.
+    stash = {}
+    orig_cases, orig_driver = checklib.run_cases, checklib.run_driver
+
+    def run_cases(*a, **k):
+        res = orig_cases(*a, **k)
+        stash["go"] = res[1]
+        return res
+
+    def run_driver(c, prop, cases, *a, **k):
+        model = orig_driver(c, prop, cases, *a, **k)
+        n = 0
+        for i, (m, attrs) in model.items():
+            g = stash.get("go", {}).get(i)
+            if "alt" in attrs and g is not None and g != m and g != attrs.get("spec") and _accept(g, attrs["alt"]):
+                attrs["spec"] = g
+                n += 1
+        if n:
+            c.coverage["accepted_token_by_token"] = n
+        return model
+
+    checklib.run_cases, checklib.run_driver = run_cases, run_driver
+    try:
+        return checklib.standard(ctx, SPEC)
+    finally:
+        checklib.run_cases, checklib.run_driver = orig_cases, orig_driver
